@@ -334,7 +334,8 @@ distinct = distinct resolution patterns / (history length, key set, sequence, fl
             .map(|_| (rng.chance(1, 2), *rng.pick(&[1u8, 1, 2, 3, 4, 5, 0, 6]), *rng.pick(&[0u8, 0, 1, 2, 3])))
             .collect();
         let msg = vcp_with(&mut rng, &cuts);
-        let mut stats = ChunkTimingStats::new();
+        // Default::default() and new() are the same empty statistics
+        let mut stats = if hi % 2 == 0 { ChunkTimingStats::new() } else { ChunkTimingStats::default() };
         let mut model = Model { windows: HashMap::new() };
         let mut keymap: HashMap<Key, ChunkCharacteristics> = HashMap::new();
         let upload = Utc.timestamp_millis_opt(1_723_552_410_000 + rng.below(1_000_000) as i64).single();
